@@ -173,7 +173,7 @@ func main() {
 		add := func(loc string, k int) {
 			for j := 0; j < k; j++ {
 				f := g.fact()
-				id := fmt.Sprintf("%s%d", loc, j)
+				id := fmt.Sprintf("f%d", j) // the same ids in the location and in its parent
 				cp := J{}
 				bs, _ := json.Marshal(f)
 				json.Unmarshal(bs, &cp)
